@@ -41,6 +41,11 @@ inductive CE
   | counted (p : PE)    -- `p->ref` (String, Variant) / `p` (RefCount::Ptr: non-null)
   | isStatic (p : PE)   -- `p == &emptyData`
   | notSelf             -- `&other != this`
+  -- the plain read of the counter that guards the in-place path (the model's `readRef`):
+  | sole                -- `data->ref == 1 [&& minCapacity <= data->capacity]`                 (String)
+  | notSole             -- `data->type != T || data->ref > 1`                                   (Variant, Xml::Variant)
+  | wrongType           -- `data->type != T`                                                    (Xml::Variant::toElement)
+  | shared              -- `data->ref > 1`
 deriving DecidableEq, Repr
 
 inductive Stmt
@@ -53,6 +58,8 @@ inductive Stmt
   | store (dst src : PE)          -- `dst = src;`
   | allocCopy (dst src : PE)      -- `dst = new block; copy of the bytes of src; ref = 1`
   | copyInline (src : PE)         -- `_data = *src;` / the fields of `_data` are filled from the arguments
+  | writeInPlace                  -- the guarded modification of the own payload: `data->len = …`, `*(T*)(data + 1) = other`,
+                                  -- `return *(T*)(data + 1)` (a mutable reference through which the caller writes)
   -- the second field of RefCount::Ptr (`obj`, not counted): only checked to mirror the counted field
   | bindO (p : PE)
   | storeO (dst src : PE)
@@ -76,6 +83,7 @@ structure Env where
   inl : Option (Nat × List Nat) := none     -- content of `_data` (tag, value) once it was filled
   acts : List Act := []
   ok : Bool := true
+  stopped : Bool := false                   -- `semPre`: the body has reached its plain read
 
 /-- parameters of one interpretation: the state in which the call starts, the thread, the slots of `*this` and of the
     argument, the release list of a slot (`dec; free`, or the Ptr release with the destructor of the pointee), the
@@ -86,8 +94,16 @@ structure Ctx where
   d : Nat
   s : Nat
   relOf : Nat → List Act
-  allocOf : Nat → Act          -- target slot ↦ the `alloc` step of this site
+  allocOf : Nat → List Act     -- target slot ↦ the `alloc` step of this site (for containers followed by the copy
+                               -- constructors of the elements)
   argInl : Option (Nat × List Nat)    -- inline value built from the arguments (attach / literal), `none`: copy of `*src`
+  -- bodies with the plain counter read: `mode` 0 = the body has none, 1 = up to and including the read (`pre` of the model),
+  -- 2 = from the read on, decided by `writing` (`post` of the model: the state after the read)
+  mode : Nat := 0
+  readOk : Bool := true        -- the other conjuncts of the read (capacity, payload type)
+  writing : Bool := false      -- the read succeeded (`isWriting` in the state after `pre`)
+  typeOk : Bool := true        -- the payload has the type of the accessor
+  wacts : List Act := []       -- the guarded in-place modification
 
 def evalP (e : Env) : PE → Den
   | .self => e.self
@@ -113,6 +129,14 @@ def evalC (c : Ctx) (e : Env) : CE → Bool
   | .counted p => isBlkDen c (evalP e p)
   | .isStatic p => isStaticDen c (evalP e p)
   | .notSelf => c.d != c.s
+  | .sole => c.writing
+  | .notSole => !c.writing
+  | .wrongType => !c.writing && !c.typeOk
+  | .shared => !c.writing
+
+def isGuard : CE → Bool
+  | .sole | .notSole | .wrongType | .shared => true
+  | _ => false
 
 def setP (e : Env) (p : PE) (x : Den) : Env :=
   match p with
@@ -131,8 +155,17 @@ def inlOf (c : Ctx) : Den → Option (Nat × List Nat)
 
 def exec (c : Ctx) : Stmt → Env → Env
   | .skip, e => e
-  | .seq a b, e => exec c b (exec c a e)
-  | .ite cnd t f, e => if evalC c e cnd then exec c t e else exec c f e
+  | .seq a b, e => let e1 := exec c a e; if e1.stopped then e1 else exec c b e1
+  | .ite cnd t f, e =>
+    if isGuard cnd then
+      if c.mode = 1 then { emit e [.readRef c.d c.readOk] with stopped := true }
+      else if c.mode = 2 then (if evalC c e cnd then exec c t e else exec c f e)
+      else fail e
+    else if evalC c e cnd then exec c t e else exec c f e
+  | .writeInPlace, e =>
+    match e.self with
+    | .slot v => if c.mode = 2 ∧ c.writing = true ∧ v = c.d then emit e c.wacts else fail e
+    | _ => fail e
   | .bind p, e =>
     match evalP e p with
     | .slot v => { e with locs := e.locs ++ [.alias v] }
@@ -159,8 +192,8 @@ def exec (c : Ctx) : Stmt → Env → Env
     | _, _ => fail e
   | .allocCopy dst _, e =>
     match dst with
-    | .self => emit (setP e .self (.slot c.d)) [c.allocOf c.d]
-    | .loc i => emit (setP e (.loc i) (.fresh (tmpT c.tid))) [c.allocOf (tmpT c.tid)]
+    | .self => emit (setP e .self (.slot c.d)) (c.allocOf c.d)
+    | .loc i => emit (setP e (.loc i) (.fresh (tmpT c.tid))) (c.allocOf (tmpT c.tid))
     | _ => fail e
   | .copyInline src, e =>
     match e.self with
